@@ -128,17 +128,20 @@ def mm(p, g):
     if k == "pair":
         if not is_pair(g):
             return "context"
+        bad = []
         r = mm(p[1], g[0])
         if r:
-            return r
-        return None if (type(g[1]) is dict and g[1] == p[2]) else "context"
+            bad.append(r)
+        if not (type(g[1]) is dict and g[1] == p[2]):
+            bad.append("context")
+        return "|".join(bad) or None
     if k == "maybe":
         if p[2]:
             return mm(("pair", p[1], p[2]), g)
         if is_pair(g):
             # a context although the last filled value had none (e.g. a context that survived reset)
             r = mm(p[1], g[0])
-            return r or "context"
+            return (r + "|context") if r else "context"
         return mm(p[1], g)
     if k == "vmc":
         if not (isinstance(g, tuple) and len(g) == 3 and hasattr(g, "variance") and hasattr(g, "mean") and hasattr(g, "count")):
@@ -151,11 +154,14 @@ def mm(p, g):
     if k == "hist":
         if not isinstance(g, histogram):
             return "value"
+        bad = []            # every clause is reported: each is a manifestation of its own
         if g.edges != p[1]:
-            return "edges"
+            bad.append("edges")
         if not same_bins(g.bins, p[2]):
-            return "bins"
-        return None if same_num(g.n_out_of_range, p[3]) else "n_out_of_range"
+            bad.append("bins")
+        if not same_num(g.n_out_of_range, p[3]):
+            bad.append("n_out_of_range")
+        return "|".join(bad) or None
     if k == "graph":
         # ("graph", points, context without scale/dim); the value is a (graph, context) pair
         if not is_pair(g) or not isinstance(g[0], Graph):
@@ -341,7 +347,7 @@ def canon(x):
     if isinstance(x, list):
         return ["list"] + [canon(y) for y in x]
     if isinstance(x, dict):
-        return {"dict": sorted(([repr(k), canon(v)] for k, v in x.items()), key=lambda kv: kv[0])}
+        return dict((str(k), canon(v)) for k, v in x.items())
     return ["repr", repr(x)]
 
 
@@ -583,20 +589,20 @@ def outcome(el):
 
 
 def compare(exp, got):
-    """None | (clause, detail)"""
+    """[(clause, detail)] - empty when the outcome of compute() is the expected one"""
     if exp[0] == "raise":
         if got[0] == "raise":
-            return None if got[1] == exp[1] else ("raises-%s-instead-of-%s" % (got[1], exp[1]), "raised %s" % got[1])
-        return ("no-%s" % exp[1], "yielded %s instead of raising %s" % (short(got[1]), exp[1]))
+            return [] if got[1] == exp[1] else [("raises-%s-instead-of-%s" % (got[1], exp[1]), "raised %s" % got[1])]
+        return [("no-%s" % exp[1], "yielded %s instead of raising %s" % (short(got[1]), exp[1]))]
     if got[0] == "raise":
-        return ("raises-%s" % got[1], "compute() raised %s" % got[1])
+        return [("raises-%s" % got[1], "compute() raised %s" % got[1])]
     if len(got[1]) != len(exp[1]):
-        return ("n-yields", "yielded %d values %s, expected %d" % (len(got[1]), short(got[1]), len(exp[1])))
+        return [("n-yields", "yielded %d values %s, expected %d" % (len(got[1]), short(got[1]), len(exp[1])))]
     for p, g in zip(exp[1], got[1]):
         r = mm(p, g)
         if r:
-            return (r, "yielded %s, expected %s" % (short(g), describe(p)))
-    return None
+            return [(c, "yielded %s, expected %s" % (short(g), describe(p))) for c in r.split("|")]
+    return []
 
 
 def describe(p):
@@ -687,9 +693,8 @@ def run_history(label, ops):
                 return fails
         elif op[0] == "c":
             got = outcome(el)
-            bad = compare(cfg.spec(pre, fills, env), got)
-            if bad:
-                fail(phase, bad[0], "compute #%d %s" % (i, bad[1]))
+            for clause, detail in compare(cfg.spec(pre, fills, env), got):
+                fail(phase, clause, "compute #%d %s" % (i, detail))
             after.append(("raise", got[1]) if got[0] == "raise" else ("yield", [canon_item(x) for x in got[1]]))
         else:
             try:
@@ -740,39 +745,75 @@ def replay_history(label, ops, fid):
     return any(f[0] == fid for f in run_history(label, ops))
 
 
-def replay_ctor(which):
-    return bool(check_ctor(which))
+def replay_ctor(which, fid):
+    return any(f[0] == fid for f in check_ctor(which))
+
+
+class NoReset(object):
+    """a FillCompute accumulator without a reset method (sums what it is filled with)"""
+
+    def __init__(self):
+        self.total = 0
+
+    def fill(self, value):
+        self.total += lena.flow.get_data(value)
+
+    def compute(self):
+        yield self.total
 
 
 def check_ctor(which):
-    """documented constructor clauses that decide whether reset exists / what it restores"""
-    if which == "Histogram:bins-and-make_bins":
+    """documented constructor clauses that decide whether reset exists; returns [(fid, detail)]"""
+    fails = []
+    if which == "Histogram[bins+make_bins]":
         try:
             Histogram([0, 1, 2], bins=[0, 0], make_bins=lambda: [0, 0])
+            fails.append((which + "/init/no-LenaTypeError", "no LenaTypeError when both bins and make_bins are given"))
         except lena.core.LenaTypeError:
-            return None
+            pass
         except Exception as e:
-            return "raised %s instead of LenaTypeError" % type(e).__name__
-        return "no LenaTypeError when both bins and make_bins are given"
-    if which == "Vectorize:reset-only-if-all-resettable":
-        class NoReset(object):
-            def fill(self, v):
-                pass
-
-            def compute(self):
-                yield 0
-        v = Vectorize([Sum(), NoReset()])
-        return "Vectorize over an element without reset still offers reset" if hasattr(v, "reset") else None
-    if which == "VarianceMeanCount:reset-only-if-sums-resettable":
-        class NoReset(object):
-            def fill(self, v):
-                pass
-
-            def compute(self):
-                yield 0
-        v = VarianceMeanCount(sum_sq=NoReset(), sum_=Sum())
-        return "VarianceMeanCount over a sum without reset still offers reset" if hasattr(v, "reset") else None
-    raise AssertionError(which)
+            fails.append((which + "/init/raises-%s-instead-of-LenaTypeError" % type(e).__name__, "raised %s" % e))
+        return fails
+    # a wrapper over an accumulator without reset: still the component-wise / documented aggregate, but no reset
+    if which == "Vectorize[inner-without-reset]":
+        make = lambda: Vectorize([Sum(), NoReset()])
+        fill = [(1, 10), ((2, 20), {"k": 1})]
+        exp = [((3, 30), {"k": 1})]
+    elif which == "Vectorize[inner-without-reset,dim=2]":
+        make = lambda: Vectorize(NoReset(), dim=2)
+        fill = [(1, 10), ((2, 20), {"k": 1})]
+        exp = [((3, 30), {"k": 1})]
+    elif which == "VarianceMeanCount[sum-without-reset]":
+        make = lambda: VarianceMeanCount(sum_sq=NoReset(), sum_=Sum(), corrected=False)
+        fill = [1, (3, {"k": 1})]
+        exp = [((1.0, 2.0, 2), {"k": 1})]
+    elif which == "Mean[sum_seq-without-reset]":
+        make = lambda: Mean(sum_seq=NoReset())
+        fill = [1, (4, {"k": 1})]
+        exp = [(2.5, {"k": 1})]
+    else:
+        raise AssertionError(which)
+    try:
+        el = make()
+    except Exception as e:
+        return [(which + "/init/raises-%s" % type(e).__name__, "the constructor raised %s: %s" % (type(e).__name__, e))]
+    for v in fill:
+        el.fill(copy.deepcopy(v))
+    got = outcome(el)
+    if got != ("yield", exp):
+        fails.append((which + "/fill-compute/value", "after fills %r compute gives %s, expected %r" % (fill, short(got), exp)))
+    if which.startswith("Mean"):
+        # documented in the code: reset raises LenaAttributeError
+        try:
+            el.reset()
+            fails.append((which + "/reset/no-LenaAttributeError", "reset() of a Mean whose sum_seq has no reset succeeded"))
+        except lena.core.LenaAttributeError:
+            pass
+        except Exception as e:
+            fails.append((which + "/reset/raises-%s" % type(e).__name__, "reset() raised %s" % e))
+    elif hasattr(el, "reset"):
+        fails.append((which + "/init/offers-reset", "offers reset although an inner element has none"))
+    return fails
 
 
 # ------------------------------------------------------------------ scopes
@@ -859,16 +900,19 @@ def body(R):
         R.case(bool(xs))
         report(R, label, ops, fails)
     # 5. documented constructor clauses about reset
-    R.scope("constructors", "Histogram(bins and make_bins) raises LenaTypeError; Vectorize / VarianceMeanCount offer reset "
-            "only when every inner element has one", True)
-    for which in ["Histogram:bins-and-make_bins", "Vectorize:reset-only-if-all-resettable",
-                  "VarianceMeanCount:reset-only-if-sums-resettable"]:
+    R.scope("constructors of wrappers over an accumulator without reset",
+            "Histogram(bins and make_bins) raises LenaTypeError; Vectorize (list and dim forms), VarianceMeanCount and "
+            "Mean over an inner accumulator without reset: constructible, documented aggregate after 2 fills, and no "
+            "usable reset", True)
+    for which in ["Histogram[bins+make_bins]", "Vectorize[inner-without-reset]", "Vectorize[inner-without-reset,dim=2]",
+                  "VarianceMeanCount[sum-without-reset]", "Mean[sum_seq-without-reset]"]:
         try:
-            bad = check_ctor(which)
+            fails = check_ctor(which)
         except Exception as e:
-            bad = "raised %s: %s" % (type(e).__name__, e)
+            fails = [(which + "/harness-exception-%s" % type(e).__name__, str(e))]
         R.case(True)
-        R.check(not bad, "ctor/" + which, "%s: %s" % (which, bad), {"which": which}, {"fn": "replay_ctor", "args": [which]})
+        for fid, detail in fails:
+            R.fail(fid, "%s: %s" % (which, detail), {"which": which}, {"fn": "replay_ctor", "args": [which, fid]})
 
 
 if __name__ == "__main__":
